@@ -323,4 +323,144 @@ theorem c07w_timer_qty_piece (T A rest : List Tok) (cs : CharSpec) (e : Ext) (tm
     exact c07p_timerTail_cur ..
   · simp [c07p_body]
 
+/-! ### ingredient / cookware with quantity tokens, for any exact reading of them -/
+
+/-- **an ingredient whose quantity tokens raise diagnostics** (`@x{%g}`, `@x{= %g}`, `@x{5%}`, `@x{1/0%g}` …): no
+    modifiers, no alias separator, a non-blank name; `parse_quantity` on the quantity tokens pushes exactly `l`
+    (result described by `R`) from every state.  Then exactly `l`, then the ingredient carrying the quantity read. -/
+theorem c07w_ingredient_qty_piece (T A rest : List Tok) (cs : CharSpec) (e : Ext) (tm : Tok) (nameT : List Tok)
+    (tob : Tok) (Q : List Tok) (tcb : Tok)
+    (hT : T = A ++ (c07p_comp tm [] nameT tob Q tcb ++ rest)) (hw : WF T)
+    (sh : PlShape e .at tm [] nameT tob Q tcb rest)
+    (ha : e.has Gen.EXT_COMPONENT_ALIAS = false ∨ ∀ t ∈ nameT, t.kind ≠ .or)
+    (hname : (buildText (offAt T (A.length + 1)) nameT).isTextEmpty cs = false)
+    (hne : ∃ t ∈ Q, isPadK t = false) (l : List (Ev α)) (R : ParsedQuantity α → Prop)
+    (hQ : ∀ sq : BP α, sq.cs = cs → sq.ext = e → Sat (parseQuantity (α := α) Q) sq (fun r s' => Pushed l sq s' ∧ R r)) :
+    PlPieceAt T cs e A ⟨c07p_comp tm [] nameT tob Q tcb, fun evs => ∃ q : ParsedQuantity α, R q ∧
+      evs = l ++ [.ingredient ⟨⟨⟨Modifiers.empty, Span.pos (offAt T (A.length + 1))⟩, none,
+        buildText (offAt T (A.length + 1)) nameT, none, some q.quantity, none⟩,
+        ⟨offAt T A.length, offAt T (A.length + (c07p_comp tm [] nameT tob Q tcb).length)⟩⟩]⟩ := by
+  apply c07p_piece_of_ingredient T A _ rest cs e hT hw tm _ rfl sh.hk
+  intro s h1 h2 h3 h4 h5
+  subst h1 h2 h3
+  have hrun := c07p_ingredient_run s A tm [] nameT tob Q tcb rest sh hT h5
+  have hbody := c07p_body_qty_some nameT tob Q tcb hne
+  have ht := c07e_ingredientTail_q (α := α) (offAt s.toks A.length)
+    (offAt s.toks (A.length + (c07p_comp tm [] nameT tob Q tcb).length))
+    (offAt s.toks (A.length + 1)) (offAt s.toks (A.length + 1)) (c07p_body nameT tob Q tcb) none
+    ({ s with cur := A.length + (c07p_comp tm [] nameT tob Q tcb).length } : BP α) Q hbody ha hname
+    l R (fun sq qq => hQ sq qq.1 qq.2.1)
+  unfold Sat at ht
+  have hrun' : ingredientP s = ingredientTail (offAt s.toks A.length)
+      (offAt s.toks (A.length + (c07p_comp tm [] nameT tob Q tcb).length))
+      (offAt s.toks (A.length + 1)) (offAt s.toks (A.length + 1)) [] (c07p_body nameT tob Q tcb) none
+      { s with cur := A.length + (c07p_comp tm [] nameT tob Q tcb).length } := hrun
+  rw [← hrun'] at ht
+  obtain ⟨hpu, q, hRq, hr⟩ := ht
+  refine ⟨l, _, hr, hpu, ?_, q, hRq, rfl⟩
+  rw [hrun']
+  exact (c07p_indep_fields (Indep.ingredientTail ..) _).1
+
+/-- **a cookware item whose quantity tokens raise diagnostics** (`#pot{ %x}`, `#pot{3/0}`, `#pot{1%kg}` …): as for
+    the ingredient; after `l` comes `cookware-unit` iff the reading has a unit (`c07f_cwUnitEvs`). -/
+theorem c07w_cookware_qty_piece (T A rest : List Tok) (cs : CharSpec) (e : Ext) (tm : Tok) (nameT : List Tok)
+    (tob : Tok) (Q : List Tok) (tcb : Tok)
+    (hT : T = A ++ (c07p_comp tm [] nameT tob Q tcb ++ rest)) (hw : WF T)
+    (sh : PlShape e .hash tm [] nameT tob Q tcb rest)
+    (ha : e.has Gen.EXT_COMPONENT_ALIAS = false ∨ ∀ t ∈ nameT, t.kind ≠ .or)
+    (hname : (buildText (offAt T (A.length + 1)) nameT).isTextEmpty cs = false)
+    (hne : ∃ t ∈ Q, isPadK t = false) (l : List (Ev α)) (R : ParsedQuantity α → Prop)
+    (hQ : ∀ sq : BP α, sq.cs = cs → sq.ext = e → Sat (parseQuantity (α := α) Q) sq (fun r s' => Pushed l sq s' ∧ R r)) :
+    PlPieceAt T cs e A ⟨c07p_comp tm [] nameT tob Q tcb, fun evs => ∃ q : ParsedQuantity α, R q ∧
+      evs = l ++ c07f_cwUnitEvs q ++ [.cookware ⟨⟨⟨Modifiers.empty, Span.pos (offAt T (A.length + 1))⟩,
+        buildText (offAt T (A.length + 1)) nameT, none, some ⟨q.quantity.val.value, q.quantity.span⟩, none⟩,
+        ⟨offAt T A.length, offAt T (A.length + (c07p_comp tm [] nameT tob Q tcb).length)⟩⟩]⟩ := by
+  apply c07p_piece_of_cookware T A _ rest cs e hT hw tm _ rfl sh.hk
+  intro s h1 h2 h3 h4 h5
+  subst h1 h2 h3
+  have hrun := c07p_cookware_run s A tm [] nameT tob Q tcb rest sh hT h5
+  have hbody := c07p_body_qty_some nameT tob Q tcb hne
+  have ht := c07f_cookwareTail_q (α := α) (offAt s.toks A.length)
+    (offAt s.toks (A.length + (c07p_comp tm [] nameT tob Q tcb).length))
+    (offAt s.toks (A.length + 1)) (offAt s.toks (A.length + 1)) (c07p_body nameT tob Q tcb) none
+    ({ s with cur := A.length + (c07p_comp tm [] nameT tob Q tcb).length } : BP α) Q hbody ha hname
+    l R (fun sq qq => hQ sq qq.1 qq.2.1)
+  unfold Sat at ht
+  have hrun' : cookwareP s = cookwareTail (offAt s.toks A.length)
+      (offAt s.toks (A.length + (c07p_comp tm [] nameT tob Q tcb).length))
+      (offAt s.toks (A.length + 1)) (offAt s.toks (A.length + 1)) [] (c07p_body nameT tob Q tcb) none
+      { s with cur := A.length + (c07p_comp tm [] nameT tob Q tcb).length } := hrun
+  rw [← hrun'] at ht
+  obtain ⟨q, hRq, hpu, hr⟩ := ht
+  refine ⟨_, _, hr, hpu, ?_, q, hRq, rfl⟩
+  rw [hrun']
+  exact (c07p_indep_fields (Indep.cookwareTail ..) _).1
+
+/-! ### components without quantity: alias errors (with plain modifier tokens) -/
+
+/-- **alias errors on an ingredient** (`@a|b|c{}`, `@a|{}`; COMPONENT_ALIAS on, the first `|` of the name tokens at
+    index `i`, a non-blank name before it, plain modifier tokens, blank braces): exactly `multiple-aliases:ingredient`
+    (labelled from the first `|` to the end of the name) iff a second `|` follows, else `empty-alias:ingredient`
+    (labelled with the `|`) iff the alias text is blank (`aliasEvs`); then one `duplicate-modifier` per repeated
+    modifier token; then the ingredient. -/
+theorem c07w_ingredient_alias_piece (T A rest : List Tok) (cs : CharSpec) (e : Ext) (tm : Tok)
+    (ms nameT : List Tok) (tob : Tok) (Q : List Tok) (tcb : Tok) (i : Nat)
+    (hT : T = A ++ (c07p_comp tm ms nameT tob Q tcb ++ rest)) (hw : WF T)
+    (sh : PlShape e .at tm ms nameT tob Q tcb rest) (hs : SimpleMods ms)
+    (hQ : ∀ t ∈ Q, isPadK t = true)
+    (he : e.has Gen.EXT_COMPONENT_ALIAS = true) (hi : nameT.findIdx? (fun t => t.kind == .or) = some i)
+    (hname : (buildText (offAt T (A.length + 1 + ms.length)) (nameT.take i)).isTextEmpty cs = false) :
+    PlPieceAt (α := α) T cs e A ⟨c07p_comp tm ms nameT tob Q tcb, fun evs =>
+      evs = aliasEvs "ingredient" nameT i cs ++ dupEvs ms ++
+        [.ingredient ⟨⟨simpleFlags ms (offAt T (A.length + 1)), none,
+          buildText (offAt T (A.length + 1 + ms.length)) (nameT.take i), aliasRes nameT i cs, none, none⟩,
+        ⟨offAt T A.length, offAt T (A.length + (c07p_comp tm ms nameT tob Q tcb).length)⟩⟩]⟩ := by
+  apply c07p_piece_of_ingredient T A _ rest cs e hT hw tm _ rfl sh.hk
+  intro s h1 h2 h3 h4 h5
+  subst h1 h2 h3
+  have hrun := c07p_ingredient_run s A tm ms nameT tob Q tcb rest sh hT h5
+  have hbody := c07p_body_qty_none nameT tob Q tcb hQ
+  have ht := ingredientTail_noqty (α := α) (offAt s.toks A.length)
+    (offAt s.toks (A.length + (c07p_comp tm ms nameT tob Q tcb).length))
+    (offAt s.toks (A.length + 1)) (offAt s.toks (A.length + 1 + ms.length)) ms (c07p_body nameT tob Q tcb) none
+    ({ s with cur := A.length + (c07p_comp tm ms nameT tob Q tcb).length } : BP α) _ _ _
+    (parseAlias_sep "ingredient" nameT _ i _ he hi) hname hbody hs
+  unfold Sat at ht
+  rw [← hrun] at ht
+  obtain ⟨hpu, hr⟩ := ht
+  refine ⟨_, _, hr, hpu, ?_, rfl⟩
+  rw [hrun]
+  exact (c07p_indep_fields (Indep.ingredientTail ..) _).1
+
+/-- **alias errors on a cookware item** (`#a|b|c{}`, `#a|{}`): as for the ingredient, with
+    `cookware-recipe-modifier` after the duplicate-modifier errors iff a `@` is among the modifiers. -/
+theorem c07w_cookware_alias_piece (T A rest : List Tok) (cs : CharSpec) (e : Ext) (tm : Tok)
+    (ms nameT : List Tok) (tob : Tok) (Q : List Tok) (tcb : Tok) (i : Nat)
+    (hT : T = A ++ (c07p_comp tm ms nameT tob Q tcb ++ rest)) (hw : WF T)
+    (sh : PlShape e .hash tm ms nameT tob Q tcb rest) (hs : SimpleMods ms)
+    (hQ : ∀ t ∈ Q, isPadK t = true)
+    (he : e.has Gen.EXT_COMPONENT_ALIAS = true) (hi : nameT.findIdx? (fun t => t.kind == .or) = some i)
+    (hname : (buildText (offAt T (A.length + 1 + ms.length)) (nameT.take i)).isTextEmpty cs = false) :
+    PlPieceAt (α := α) T cs e A ⟨c07p_comp tm ms nameT tob Q tcb, fun evs =>
+      evs = aliasEvs "cookware" nameT i cs ++ dupEvs ms ++ recipeModEvs ms ++
+        [.cookware ⟨⟨simpleFlags ms (offAt T (A.length + 1)),
+          buildText (offAt T (A.length + 1 + ms.length)) (nameT.take i), aliasRes nameT i cs, none, none⟩,
+        ⟨offAt T A.length, offAt T (A.length + (c07p_comp tm ms nameT tob Q tcb).length)⟩⟩]⟩ := by
+  apply c07p_piece_of_cookware T A _ rest cs e hT hw tm _ rfl sh.hk
+  intro s h1 h2 h3 h4 h5
+  subst h1 h2 h3
+  have hrun := c07p_cookware_run s A tm ms nameT tob Q tcb rest sh hT h5
+  have hbody := c07p_body_qty_none nameT tob Q tcb hQ
+  have ht := cookwareTail_noqty (α := α) (offAt s.toks A.length)
+    (offAt s.toks (A.length + (c07p_comp tm ms nameT tob Q tcb).length))
+    (offAt s.toks (A.length + 1)) (offAt s.toks (A.length + 1 + ms.length)) ms (c07p_body nameT tob Q tcb) none
+    ({ s with cur := A.length + (c07p_comp tm ms nameT tob Q tcb).length } : BP α) _ _ _
+    (parseAlias_sep "cookware" nameT _ i _ he hi) hname hbody hs
+  unfold Sat at ht
+  rw [← hrun] at ht
+  obtain ⟨hpu, hr⟩ := ht
+  refine ⟨_, _, hr, hpu, ?_, rfl⟩
+  rw [hrun]
+  exact (c07p_indep_fields (Indep.cookwareTail ..) _).1
+
 end Cook
